@@ -24,7 +24,7 @@ RELAX = ["bigger_memory", "memory_inf", "smaller_keep", "larger_may_keep", "more
 
 def gen_cases(tier, seed):
     rnd = random.Random(f"C18-{seed}")
-    n = 48 if tier == "quick" else 600
+    n = 48 if tier == "quick" else 400
     cases = []
     for i in range(n):
         relax = RELAX[i % len(RELAX)]
